@@ -16,30 +16,19 @@ theorem extractStar_nonneg (n a lo hi Ms ms : ℝ) (hn : 0 ≤ n) (hlo : 0 < lo)
   · unfold extractStar at h
     simp only [real_one, real_two] at h
     split at h
+    · rename_i p1 p2 h1 h2
+      cases h
+      have hp1 : 0 < p1 := C12.Pk_never_nonpos _ _ _ _ _ h1
+      have hp2 : 0 < p2 := C12.Pk_never_nonpos _ _ _ _ _ h2
+      positivity
     · cases h; positivity
-    · rename_i p1 h1
-      split at h
-      · rename_i p2 h2
-        cases h
-        have hp1 : 0 < p1 := C12.Pk_never_nonpos _ _ _ _ _ h1
-        have hp2 : 0 < p2 := C12.Pk_never_nonpos _ _ _ _ _ h2
-        positivity
-      · cases h
   · have := C05.star_mean_in_truncated_bin n a lo hi Ms ms hlo hlt hn0 h
     linarith [this.1]
 
-/-- extraction of a star bin is defined (finite) whenever the truncated bin's moments are both representable — and, since the
-    repair of the thin-bin case, also whenever the zeroth moment is *not* (age equal to a bin-edge lifetime) -/
-theorem extractStar_defined (n a lo hi : ℝ) (h : (resolution : ℝ) ≤ PkCore a 2 lo hi ∨ Pk a 1 lo hi = none) :
-    ∃ Ms ms, extractStar n a lo hi = some (Ms, ms) := by
+/-- since the repair of the thin-bin case the extraction of a star bin is always defined (finite), whatever the age -/
+theorem extractStar_defined (n a lo hi : ℝ) : ∃ Ms ms, extractStar n a lo hi = some (Ms, ms) := by
   unfold extractStar
-  simp only [real_one, real_two]
-  cases h1 : Pk a 1 lo hi with
-  | none => exact ⟨_, _, rfl⟩
-  | some p1 =>
-    rcases h with h2 | h2
-    · rw [C12.Pk_some_of_ge a 2 lo hi h2]; exact ⟨_, _, rfl⟩
-    · rw [h1] at h2; cases h2
+  split <;> exact ⟨_, _, rfl⟩
 
 theorem remMean_nonneg (lo hi N M : ℝ) (hlo : 0 ≤ lo) (hhi : 0 ≤ hi) (hM : 0 ≤ M) : 0 ≤ remMean lo hi N M := by
   unfold remMean
@@ -84,8 +73,7 @@ theorem views_class_order (factor nmin : ℝ) (rows : List (ViewRow ℝ)) (h : r
 structure Statement : Prop where
   star_nonneg : ∀ n a lo hi Ms ms : ℝ, 0 ≤ n → 0 < lo → lo < hi → extractStar n a lo hi = some (Ms, ms) →
     0 ≤ Ms ∧ (n ≠ 0 → 0 < ms)
-  star_defined : ∀ n a lo hi : ℝ, ((resolution : ℝ) ≤ PkCore a 2 lo hi ∨ Pk a 1 lo hi = none) →
-    ∃ Ms ms, extractStar n a lo hi = some (Ms, ms)
+  star_defined : ∀ n a lo hi : ℝ, ∃ Ms ms, extractStar n a lo hi = some (Ms, ms)
   rem_mean_nonneg : ∀ lo hi N M : ℝ, 0 ≤ lo → 0 ≤ hi → 0 ≤ M → 0 ≤ remMean lo hi N M
   /-- BH ejection and kicks keep counts and masses non-negative and defined (from C07, C15) -/
   eject_ok : ∀ (l r : List (ℝ × ℝ)) (mej : ℝ) (d : Bool), C07.NonNeg l → dynEjectRev l mej = .ok (r, d) →
